@@ -34,9 +34,19 @@ type obs struct {
 	cfg   *cors.Config
 }
 
+// longLived remembers, per middleware, a handler wrapped right after creation
+// (possibly while still passthrough) and kept across every later Reconfigure;
+// observations alternate between it and a freshly wrapped handler.
+var longLived = map[*cors.Middleware]*mwServer{}
+var observeTick int
+
 func observeMW(m *cors.Middleware, suite []Req) (o obs, pan string) {
 	pan = catch(func() {
-		srv := newServer(m.Wrap)
+		srv := longLived[m]
+		observeTick++
+		if srv == nil || observeTick%2 == 0 {
+			srv = newServer(m.Wrap)
+		}
 		o.resps = make([]Resp, len(suite))
 		for i, q := range suite {
 			o.resps[i] = srv.do(q)
@@ -198,6 +208,8 @@ func (e histEngine) Exec(plan any, c *Ctx) *Violation {
 	var m *cors.Middleware
 	cur := -1 // plan-level belief, used only to select probes
 	twinDone := map[int]bool{}
+	longLived = map[*cors.Middleware]*mwServer{}
+	observeTick = 0
 	for si, st := range p.Steps {
 		label := fmt.Sprintf("#%d %s", si, st.Kind)
 		if st.Cfg >= len(p.Cfgs) {
@@ -210,11 +222,16 @@ func (e histEngine) Exec(plan any, c *Ctx) *Violation {
 			case "new":
 				cc := p.Cfgs[st.Cfg].Config()
 				m, err = cors.NewMiddleware(cc)
+				if m != nil {
+					longLived[m] = newServer(m.Wrap)
+				}
 				cur = st.Cfg
 			case "zero":
 				m = new(cors.Middleware)
+				longLived[m] = newServer(m.Wrap)
 			case "zero_reconf":
 				m = new(cors.Middleware)
+				longLived[m] = newServer(m.Wrap) // wrapped while still passthrough
 				cc := p.Cfgs[st.Cfg].Config()
 				err = m.Reconfigure(&cc)
 				cur = st.Cfg
